@@ -772,16 +772,4 @@ TESTS = [
 ]
 
 
-def _kf_randomly_bin_zero(case, subcheck, detail):
-    # grid.randomly_bin: `if N == 0: return [0] if ndim else [0]*ndim` has its two branches swapped: with ndim given the
-    # result has length 1 instead of ndim; with ndim=None it raises TypeError ([0]*None)
-    return case.get('fn') == 'randomly_bin' and case.get('N') == 0 and subcheck in ('C09.randomly_bin', 'C09.no_crash')
-
-
-def _kf_fillpts_zero(case, subcheck, detail):
-    # grid.fillpts: `pts = pts[-npts:]` with npts == 0 is pts[0:], so the legacy data is returned instead of no points
-    return case.get('fn') == 'fillpts' and case.get('npts') == 0 and bool(case.get('data')) and subcheck == 'C09.fillpts'
-
-
-KNOWN = {'C09a-randomly_bin-zero-bins-branches-swapped': _kf_randomly_bin_zero,
-         'C09b-fillpts-zero-points-returns-legacy-data': _kf_fillpts_zero}
+KNOWN = {}
